@@ -82,6 +82,19 @@ func c18Scan(body []byte) (hit string) {
 	return hit
 }
 
+// c18HostSafe keeps the characters of a payload that survive in a URL authority.
+func c18HostSafe(pl string) string {
+	var b strings.Builder
+	for _, r := range pl {
+		switch {
+		case r <= ' ' || r == '/' || r == '?' || r == '#' || r == '%' || r == '@' || r == '\\' || r == '`' || r >= 0x7f:
+		default:
+			b.WriteRune(r)
+		}
+	}
+	return b.String()
+}
+
 func c18IsHTML(resp *vfResp) bool {
 	ct := resp.Header.Get("Content-Type")
 	if ct == "" {
@@ -128,7 +141,7 @@ type c18Point struct {
 	Path    string `json:"path"`
 	Method  string `json:"method"`
 	Session string `json:"session"`
-	Field   string `json:"field"` // form field, or "@path", "@rawquery", "@header:<h>", "@cookie:<c>"
+	Field   string `json:"field"` // form field, or "@path", "@rawquery", "@header:<h>", "@cookie:<c>", "@absform-host", "@host"
 	Payload string `json:"payload"`
 	N       int    `json:"n"`
 }
@@ -167,10 +180,18 @@ func c18Run(w *vfWorld, sess map[string][]*http.Cookie, p c18Point) (violated bo
 		hdr[strings.TrimPrefix(p.Field, "@header:")] = strings.NewReplacer("\x00", "", "\n", " ").Replace(pl)
 	case strings.HasPrefix(p.Field, "@cookie:"):
 		cookies = append(cookies, &http.Cookie{Name: strings.TrimPrefix(p.Field, "@cookie:"), Value: url.QueryEscape(pl)})
+	case p.Field == "@absform-host":
+		// HTTP/1.1 absolute-form request line: the authority becomes part of r.URL.
+		// net/url admits " < > in a host but no blank, control character or % text
+		path = "http://k" + c18HostSafe(pl) + path
+	case p.Field == "@host":
 	default:
 		form.Set(p.Field, pl)
 	}
 	req := vfReq{Method: p.Method, Path: path, Form: form, Header: hdr, Cookies: cookies}.Build()
+	if p.Field == "@host" {
+		req.Host = "k" + c18HostSafe(pl)
+	}
 	resp := w.Do(req)
 	if !c18IsHTML(resp) {
 		return false, "", "", fmt.Sprintf("%s|non-html-%d", p.Route, resp.Code)
@@ -193,7 +214,7 @@ func init() {
 		Rule:  "exhaustive product route (extracted from main()) x session kind x method x request-controlled field (every form field any handler reads, path suffix, raw query, headers, cookies) x canary payload on the real handlers; every text/html response is parsed with golang.org/x/net/html and must contain no canary-named element or attribute; class = (route, html/non-html status, reflected inert/no)",
 		Assumptions: []string{"an HTML5 parser (x/net/html) stands for the browser's parser", "stored fields are limited to what the real input filters admit (checked by attempting to store payloads through the real admin handlers)"},
 		Bounds: func(tier string) map[string]interface{} {
-			return map[string]interface{}{"payloads": len(c18Payloads()), "fields": len(c18Fields()) + 8}
+			return map[string]interface{}{"payloads": len(c18Payloads()), "fields": len(c18Fields()) + 11}
 		},
 		Shards: func(tier string) int { return 16 },
 		Run: func(c *vfeng.Ctx) {
@@ -201,7 +222,7 @@ func init() {
 			defer w.Close()
 			sess := c18Sessions(w)
 			fields := c18Fields()
-			special := []string{"@path", "@rawpath", "@rawquery", "@header:User-Agent", "@header:Referer", "@header:Origin", "@header:X-Forwarded-For", "@cookie:auth_cookie", "@cookie:vip_push_cookie"}
+			special := []string{"@path", "@rawpath", "@rawquery", "@header:User-Agent", "@header:Referer", "@header:Origin", "@header:X-Forwarded-For", "@cookie:auth_cookie", "@cookie:vip_push_cookie", "@absform-host", "@host"}
 			allFields := append(append([]string{}, fields...), special...)
 			payloads := c18Payloads()
 			i, n := 0, 0
